@@ -1043,3 +1043,32 @@ def _lump_component(sc, v, at):
                     if isinstance(e, ast.Subscript) and isinstance(e.slice, ast.Constant):
                         return e.slice.value
     return None
+
+
+@rule("R04.19", min_instances=5, desc="a declared placement option is honoured or rejected: refine>1 on a grid='control' constraint (points between the control nodes) is rejected by every sampling method before it imposes the constraint at the nodes only")
+def r04_19(ctx):
+    """D84: MultipleShooting / SingleShooting / DirectCollocation ignored `refine=` silently: `subject_to(s <= 1, refine=4)` held at the
+    N+1 nodes only and the spline reached 2.97 in between (SplineMethod honours the option)."""
+    from ..sim import Sim, fresh_obj
+    from ..layout import Sym, LayoutUnknown
+    P = ctx.prog
+    for cname in ("MultipleShooting", "SingleShooting", "DirectCollocation"):
+        f = P.own_method(cname, "add_constraints")
+        outcome = {}
+        for refine in (1, 3):
+            imposed = []
+            stage = fresh_obj("stage", _constraints={"control": [(Sym("c"), Sym("meta"), {"refine": refine, "include_first": True, "include_last": True, "scale": 1, "group_refine": Sym("g")})],
+                                                     "integrator": [], "integrator_roots": [], "inf": [], "point": []})
+            hooks = {".subject_to": lambda s_, r, a, k, n, imposed=imposed: imposed.append("subject_to")}
+            sim = Sim(P, hooks=hooks)
+            sim.self_class = cname
+            # only the prelude matters: the run is cut at the first statement the interpreter has no meaning for
+            try:
+                sim.call(f, [fresh_obj("self", N=1, M=1), stage, Sym("opti")], {})
+                outcome[refine] = "completed"
+            except LayoutUnknown as e:
+                outcome[refine] = "rejected" if str(e).startswith("raise reached") and not imposed else ("continues (%s)" % str(e)[:60])
+        ctx.check(outcome[3] == "rejected", "%s.add_constraints rejects refine>1 on a grid='control' constraint" % cname,
+                  detail="the constraint is imposed at the control nodes only although points in between were asked for (silently weaker problem)",
+                  expected="an exception before any constraint is imposed", found=outcome[3], fi=f)
+        ctx.check(outcome[1] != "rejected", "%s.add_constraints accepts refine=1" % cname, detail="plain control-grid constraints rejected", expected="no exception from the refine check", found=outcome[1], fi=f)
